@@ -55,7 +55,7 @@ func check(prop, tier string) int {
 	case "C08":
 		code, err = rt.RunSeq(prop, tier, gen.ExtraC08(tier), cli.Subset(prop, tier, staleMock))
 	case "C07":
-		code, err = rt.RunSeq(prop, tier, cli.Subset(prop, tier, func(s cli.Scenario) bool { return s.Prior == "ownstub" }), cli.FlagPlumbing(prop))
+		code, err = rt.RunSeq(prop, tier, cli.Subset(prop, tier, func(s cli.Scenario) bool { return s.Prior == "ownstub" || s.Stub }), cli.FlagPlumbing(prop))
 	case "C03", "C04":
 		code, err = rt.RunSeq(prop, tier, cli.Subset(prop, tier, staleMock))
 	case "C16":
